@@ -6,7 +6,7 @@ import os
 import random
 import subprocess
 
-from common import CACHE, GOENV, LEAN, REPO, VERIF, Lock, build_harness, log, repo_hash, rm, scratch, sh, tree_hash
+from common import run_bounded, CACHE, GOENV, LEAN, REPO, VERIF, Lock, build_harness, log, repo_hash, rm, scratch, sh, tree_hash
 from framework import check_obligations
 import dslgen
 import harness
@@ -223,7 +223,7 @@ def run_c13(ctx):
                 args = [cbin, "compile", "-f", f]
                 for lang in ALL:
                     args += [FLAG[lang], os.path.join(o, lang)]
-                subprocess.run(args, cwd=d, capture_output=True, timeout=600)
+                run_bounded(args, cwd=d)
                 trees.append(read_tree(o))
             ctx.count("cli_process_pairs")
             if trees[0] != trees[1]:
@@ -242,7 +242,7 @@ def run_c13(ctx):
                 args = [cbin, "compile", "-f", f]
                 for lang in langs:
                     args += [FLAG[lang], os.path.join(o, lang)]
-                p = subprocess.run(args, cwd=d, capture_output=True, timeout=600)
+                p = run_bounded(args, cwd=d)
                 tree = read_tree(o)
                 outcomes.setdefault((p.returncode, tuple(sorted((k, hashlib.sha256(v).hexdigest()) for k, v in tree.items()))), run)
                 ctx.count("cli_partial_failure_runs")
@@ -368,7 +368,7 @@ def run_c14(ctx):
                 args = [cbin, "compile", "-f", f]
                 for lang in langs:
                     args += [FLAG[lang], os.path.join(o, lang)]
-                subprocess.run(args, cwd=d, capture_output=True, timeout=600)
+                run_bounded(args, cwd=d)
                 return {lang: read_tree(os.path.join(o, lang)) for lang in langs}
             together = cli(ALL, "all")
             for lang in ALL:
@@ -396,7 +396,7 @@ def run_c14(ctx):
                 args = [cbin, "compile", "-f", f]
                 for lang in ALL:
                     args += [FLAG[lang], os.path.join(o, where[lang])]
-                subprocess.run(args, cwd=d, capture_output=True, timeout=600)
+                run_bounded(args, cwd=d)
                 ctx.count("directory_layouts")
                 for lang in ALL:
                     got = read_tree(os.path.join(o, where[lang]))
